@@ -58,7 +58,7 @@ fn full(argv: &[String]) -> Vec<OsString> {
     std::iter::once(OsString::from("prog")).chain(argv.iter().map(OsString::from)).collect()
 }
 
-const FIELD_ALPHA: [&str; 14] = ["--f", "--f=v", "--f=7", "--f=fast", "-f", "v", "7", "fast", "--other", "o", "--f=a,b", "--", "-x", "300"];
+const FIELD_ALPHA: [&str; 16] = ["--f", "--f=v", "--f=7", "--f=fast", "-f", "v", "7", "fast", "--other", "o", "--f=a,b", "--", "-x", "300", "--f=true", "-ff"];
 
 /// One-field cell: struct { f: $fty, other: Option<String> }.
 macro_rules! cell {
@@ -164,6 +164,15 @@ cell!(COptVecN0, SOptVecN0, Option<Vec<String>>, [long, num_args = 0..], extract
 // ---- extras
 cell!(CGlobal, SGlobal, Option<String>, [long, global = true], extract: |m| m.get_one::<String>("f").cloned(), domain: vec![None, Some(s("v"))], print: |v| v.iter().map(|x| format!("--f={}", x)).collect());
 cell!(CDefMissing, SDefMissing, Option<String>, [long, num_args = 0..=1, default_missing_value = "dm"], extract: |m| m.get_one::<String>("f").cloned(), domain: vec![None, Some(s("dm")), Some(s("v"))], print: |v| v.iter().map(|x| format!("--f={}", x)).collect());
+
+// ---- more action / default variants
+cell!(CSetFalse, SSetFalse, bool, [long, action = ArgAction::SetFalse], extract: |m| m.get_flag("f"), domain: vec![true, false], print: |v| if *v { vec![] } else { vec![s("--f")] });
+cell!(CDefVals, SDefVals, Vec<u8>, [long, default_values_t = vec![1u8, 2]], extract: |m| m.get_many::<u8>("f").map(|v| v.copied().collect()).unwrap_or_default(), domain: vec![vec![1, 2], vec![7]], print: |v| v.iter().map(|x| format!("--f={}", x)).collect());
+cell!(CReqVec, SReqVec, Vec<String>, [long, required = true], extract: |m| m.get_many::<String>("f").map(|v| v.cloned().collect()).unwrap_or_default(), domain: vec![vec![s("v")], vec![s("v"), s("w")]], print: |v| v.iter().map(|x| format!("--f={}", x)).collect());
+cell!(COptBool, SOptBool, Option<bool>, [long], extract: |m| m.get_one::<bool>("f").copied(), domain: vec![None, Some(true), Some(false)], print: |v| v.iter().map(|x| format!("--f={}", x)).collect());
+cell!(CShortOnly, SShortOnly, Option<String>, [short], extract: |m| m.get_one::<String>("f").cloned(), domain: vec![None, Some(s("v"))], print: |v| v.iter().flat_map(|x| vec![s("-f"), x.clone()]).collect());
+cell!(CReqPosVec, SReqPosVec, Vec<String>, [required = true], extract: |m| m.get_many::<String>("f").map(|v| v.cloned().collect()).unwrap_or_default(), domain: vec![vec![s("v")], vec![s("v"), s("7")]], print: |v| v.clone());
+cell!(CCountU8Def, SCountU8Def, u8, [short, action = ArgAction::Count, default_value_t = 0], extract: |m| m.get_count("f"), domain: vec![0, 3], print: |v| if *v == 0 { vec![] } else { vec![format!("-{}", "f".repeat(*v as usize))] });
 
 // ---------------------------------------------------------------------------------------------
 // structural types
@@ -469,6 +478,7 @@ fn corpus() -> Vec<Box<dyn Cell>> {
         Box::new(CVecStr), Box::new(CVecU8), Box::new(CVecPos), Box::new(CVecN), Box::new(CVecEnum),
         Box::new(COptVecStr), Box::new(COptVecN0),
         Box::new(CGlobal), Box::new(CDefMissing),
+        Box::new(CSetFalse), Box::new(CDefVals), Box::new(CReqVec), Box::new(COptBool), Box::new(CShortOnly), Box::new(CReqPosVec), Box::new(CCountU8Def),
         Box::new(CFlatten), Box::new(COptFlatten), Box::new(CSub), Box::new(COptSub), Box::new(CFlatSub),
     ]
 }
@@ -476,7 +486,7 @@ fn corpus() -> Vec<Box<dyn Cell>> {
 /// Classify an update mismatch by cause: is it exactly "a field whose argument has a default
 /// (flag, counter, default_value) was put back to that default although the line does not name it"?
 fn update_cause(cell: &str, got: &str, want: &str, upd_has_f: bool) -> String {
-    let defaulted_cell = matches!(cell, "SBool" | "SCount" | "SDefU8" | "SDefEnum" | "SDefStr");
+    let defaulted_cell = matches!(cell, "SBool" | "SCount" | "SDefU8" | "SDefEnum" | "SDefStr" | "SSetFalse" | "SDefVals" | "SCountU8Def");
     // structural types: the only defaulted leaf is the flag `force`
     let force_reset = got.replace("force: false", "force: true") == want.replace("force: false", "force: true");
     if (defaulted_cell && !upd_has_f) || (!defaulted_cell && force_reset && got != want) {
